@@ -83,6 +83,10 @@ pub const EV_WAITER_SET: u32 = 50;
 /// a list bin was split by a resize (a = nodes cloned, b = index)
 pub const EV_LIST_SPLIT: u32 = 51;
 
+/// this thread is about to set up the resize of the table at address `a` with `b` bins
+/// (emitted before the successor table becomes visible, i.e. before any helper can join)
+pub const EV_RESIZE_BEGIN: u32 = 52;
+
 /// The type of a hook.
 pub type Hook = fn(site: u32, a: usize, b: usize);
 
